@@ -210,4 +210,46 @@ func (m *MonLateSets) AfterStep(nw *Network) {
 		m.processed[app] = len(app.Delivered)
 	}
 }
-func (m *MonLateSets) Finish(nw *Network) {}
+func (m *MonLateSets) Finish(nw *Network) {
+	// did nodes commit the second of two close validator-set changes on both
+	// sides of the round at which the first one takes effect?
+	type obs struct{ rr, lastRound int }
+	perNode := map[int][]obs{}
+	for _, n := range nw.Nodes {
+		if n.App == nil {
+			continue
+		}
+		for _, d := range n.App.Delivered {
+			acc := false
+			for _, rc := range d.Resp.InternalTransactionReceipts {
+				if rc.Accepted {
+					acc = true
+				}
+			}
+			if acc {
+				perNode[n.Idx] = append(perNode[n.Idx], obs{d.Body.RoundReceived, d.LastRoundAtCommit})
+			}
+		}
+	}
+	lo, hi, r1, r2 := 1<<30, -1, -1, -1
+	for _, os := range perNode {
+		if len(os) < 2 {
+			continue
+		}
+		r1, r2 = os[0].rr, os[1].rr
+		if os[1].lastRound >= 0 {
+			if os[1].lastRound < lo {
+				lo = os[1].lastRound
+			}
+			if os[1].lastRound > hi {
+				hi = os[1].lastRound
+			}
+		}
+	}
+	if r1 >= 0 && hi >= 0 {
+		nw.Res.count(fmt.Sprintf("second_change_committed_%d_rounds_after_the_first", minInt(r2-r1, 9)), 1)
+		if lo < r1+6 && hi >= r1+6 {
+			nw.Res.count("histories_where_nodes_commit_the_second_change_on_both_sides_of_the_first_taking_effect", 1)
+		}
+	}
+}
